@@ -324,6 +324,8 @@ type c07Chain struct {
 	// name) is written in place of the helper call as condition i; it then is the same in every row and
 	// that condition carries no counter.
 	rows [][]string
+	// ops[i]: how condition i's operand is spelled (see c07Ops); nil = every condition its own helper c<i>(x)
+	ops []string
 }
 
 // condition i is an expression written into the template instead of a call of the counting helper
@@ -340,14 +342,18 @@ func (c c07Chain) text() string {
 	if c.hasElse {
 		e = 1
 	}
-	return fmt.Sprintf("chain wrap=%s else=%d forms=%s rows=%s", c.wrap.name, e, strings.Join(c.forms, ","), strings.Join(rs, "/"))
+	s := fmt.Sprintf("chain wrap=%s else=%d forms=%s rows=%s", c.wrap.name, e, strings.Join(c.forms, ","), strings.Join(rs, "/"))
+	if !c.defaultOps() {
+		s += " ops=" + strings.Join(c.ops, ",")
+	}
+	return s
 }
 
 func c07ParseChain(s string) (c07Chain, error) {
 	var c c07Chain
 	f := strings.Fields(s)
-	if len(f) != 5 || f[0] != "chain" {
-		return c, fmt.Errorf("want: chain wrap=W else=0|1 forms=f,.. rows=k,../k,..")
+	if (len(f) != 5 && len(f) != 6) || f[0] != "chain" {
+		return c, fmt.Errorf("want: chain wrap=W else=0|1 forms=f,.. rows=k,../k,.. [ops=o,..]")
 	}
 	get := func(i int, key string) (string, error) {
 		if !strings.HasPrefix(f[i], key+"=") {
@@ -404,6 +410,25 @@ func c07ParseChain(s string) (c07Chain, error) {
 	if len(c.rows) != c.wrap.rows {
 		return c, fmt.Errorf("wrap %s needs %d row(s)", c.wrap.name, c.wrap.rows)
 	}
+	if len(f) == 6 {
+		os, err := get(5, "ops")
+		if err != nil {
+			return c, err
+		}
+		c.ops = strings.Split(os, ",")
+		if len(c.ops) != len(c.forms) {
+			return c, fmt.Errorf("number of ops != number of forms")
+		}
+		if len(c.forms) > c07MaxOpsN {
+			return c, fmt.Errorf("ops= needs at most %d conditions", c07MaxOpsN)
+		}
+		for _, o := range c.ops {
+			if _, ok := c07Ops[o]; !ok {
+				return c, fmt.Errorf("unknown op %q", o)
+			}
+		}
+		c = c.normOps()
+	}
 	return c, nil
 }
 
@@ -416,9 +441,11 @@ func (c c07Chain) tmpl() string {
 		return "{ %>" + m + "<% }"
 	}
 	for i, fm := range c.forms {
-		operand := fmt.Sprintf("c%d(x)", i)
+		operand := c07Ops[c.op(i)].spell(i)
 		if c.literalAt(i) {
 			operand = c07KindMap[c.rows[0][i]].expr
+		} else if (fm == "a" || fm == "o") && c07Ops[c.op(i)].parenLeft {
+			operand = "(" + operand + ")"
 		}
 		cond := c07Forms[fm].wrap(operand)
 		if i == 0 {
@@ -448,6 +475,7 @@ func c07EvalChain(c c07Chain) c07ChainObs {
 	kinds := c07KindMap
 	// expectation, from the statement
 	wantCalls := make([]int, n)
+	wantShared := map[string]int{}
 	outs := make([]string, len(c.rows))
 	for x, row := range c.rows {
 		for _, kn := range row {
@@ -456,7 +484,12 @@ func c07EvalChain(c c07Chain) c07ChainObs {
 		sel := -1
 		for i, kn := range row {
 			if kinds[kn].isVar {
-				wantCalls[i]++
+				switch op := c07Ops[c.op(i)]; {
+				case op.shared != "":
+					wantShared[op.shared]++
+				case !op.pure:
+					wantCalls[i]++
+				}
 			}
 			if kinds[kn].truthy != c07Forms[c.forms[i]].negate {
 				sel = i
@@ -491,6 +524,10 @@ func c07EvalChain(c c07Chain) c07ChainObs {
 			return kinds[c.rows[x][i]].val
 		}
 	}
+	shared := map[string]int{}
+	if !c.defaultOps() {
+		c07OpsData(c, data, calls, shared)
+	}
 	r.o = safeCall(3*time.Second, func() (string, error) { return plush.Render(r.tmpl, plush.NewContextWith(data)) })
 	if r.o.Kind() == "HANG" {
 		r.symptoms = []string{"hang"} // the counters may still be written to: do not read them
@@ -499,6 +536,9 @@ func c07EvalChain(c c07Chain) c07ChainObs {
 	}
 	got := append([]int(nil), calls...)
 	r.desc = fmt.Sprintf("%s: expected %q with condition calls %v; got %q, err=%v, calls %v", r.tmpl, want, wantCalls, r.o.Out, r.o.Err, got)
+	if !c.defaultOps() {
+		r.desc = fmt.Sprintf("%s: expected %q with condition calls %v and shared-helper calls %s; got %q, err=%v, calls %v and %s", r.tmpl, want, wantCalls, c07SharedText(wantShared), r.o.Out, r.o.Err, got, c07SharedText(shared))
+	}
 	switch r.o.Kind() {
 	case "PANIC":
 		r.symptoms = []string{"panic"}
@@ -515,6 +555,10 @@ func c07EvalChain(c c07Chain) c07ChainObs {
 	for i := range got {
 		later = later || got[i] > wantCalls[i]
 		earlier = earlier || got[i] < wantCalls[i]
+	}
+	for _, k := range c07SharedKeys {
+		later = later || shared[k] > wantShared[k]
+		earlier = earlier || shared[k] < wantShared[k]
 	}
 	if later {
 		r.symptoms = append(r.symptoms, "later-condition-evaluated")
@@ -557,11 +601,30 @@ func c07RunChain(rep *Report, seen map[string]bool, c c07Chain, stream string) {
 	rep.Tag("chain-" + stream)
 	rep.Tag("chain-wrap-" + c.wrap.name)
 	rep.Tag(fmt.Sprintf("chain-n-%d", len(c.forms)))
+	if sig := c.opSig(); len(sig) > 1 {
+		rep.Tag("chain-operands-mixed")
+	} else if len(sig) == 1 {
+		rep.Tag("chain-operands-" + sig[0])
+	} else {
+		rep.Tag("chain-operands-own-helpers")
+	}
 	rep.Tag("chain-impl-" + r.o.Kind())
 	if len(r.symptoms) == 0 {
 		return
 	}
 	top, _ := c07WrapByName("top")
+	// (0) spelling of the operands: if the same rows with every condition its own helper c<i>(x) show no
+	// violation, the family is about how the conditions are spelled; else go on with the plain spelling
+	if !c.defaultOps() {
+		c0 := c
+		c0.ops = nil
+		r0 := c07EvalChain(c0)
+		if len(r0.symptoms) == 0 {
+			c07BlameOps(rep, seen, c, r)
+			return
+		}
+		c, r = c0, r0
+	}
 	// (1) kinds
 	if !r.allBool {
 		c1 := c
@@ -764,7 +827,10 @@ func init() {
 			"in 12 placements (top level with template-text and with return bodies, silent tag [counters only], inside for, user function, block helper, a branch of another if, and two compositions); " +
 			"placements that evaluate the chain twice (for, fn) take every PAIR of assignments up to 5 (thorough: 6) conditions. " +
 			"(kind-at-position) every kind as the condition at position 0,1,2 of a 3-chain, the other two conditions taking every truth assignment; at top level in all 8 condition forms with and without else, in the 11 other placements plainly with else. " +
-			"(random) chains of 1..6 conditions of random kinds (returned by the helper or written), the conditions written c, (c), !c, !!c, c && true, c || false, true && c, false || c. " +
+			"(spelled alike) the conditions of a chain need not be distinct helpers: 8 other operand spellings - " + c07OpsRule() + " - " +
+			"each, for all conditions of the chain, exhaustively over every truth assignment for 1..4 conditions (thorough 1..5; pairs of assignments 1..3 / 1..4 in the placements that evaluate twice), with and without else, in all 12 placements; " +
+			"and every Go-valued kind at position 0,1,2 of a 3-chain through each spelling (top level and inside for). " +
+			"(random) chains of 1..6 conditions of random kinds (returned by the helper or written), the conditions written c, (c), !c, !!c, c && true, c || false, true && c, false || c; 40% of them with random operand spellings (one for all conditions, or one per condition). " +
 			"Checked: exactly the marker of the first truthy condition is rendered (else marker or nothing), each counted condition up to the selected one is called once per evaluation and none after it. " +
 			"Every case reaches evalIfExpression / isTruthy; distinct by case text."
 		rep.Notes = []string{
@@ -772,6 +838,8 @@ func init() {
 			"nil func / nil chan values are not in the matrix (the statement lists nil pointers only; whether other nil-able kinds are 'nil' is left open)",
 			"array / hash literals as conditions are rejected by the parser and are not values, so collections enter as context variables",
 			"the silent-tag placement checks the counters only (what <% %> renders belongs to C02)",
+			"operand spellings a(x).F / a[x].F are written (a(x).F) as the left operand of && / ||: the parser rejects `a(x).F && true` (callee-chain parsing, not C07's subject)",
+			"spellings that read context data only (rvs[x].F<i>, vals[x][<i>]) carry no counter: the rendered branch only is checked",
 		}
 		r := NewRng(cfg.Seed).Fork(7)
 		seen := map[string]bool{} // failures already reported (kind|site|case)
@@ -838,6 +906,12 @@ func init() {
 					return []*Report{rep}
 				}
 			}
+		}
+		// conditions spelled alike (oracle_c07_ops.go)
+		c07GenSpelled(rep, seen, cfg)
+		if rep.Full() {
+			rep.Exhaustive = false
+			return []*Report{rep}
 		}
 		// kind at position: every kind (returned by the helper, or written as the condition) at position
 		// 0,1,2 of a 3-chain, the two other conditions taking every truth assignment
@@ -915,6 +989,10 @@ func init() {
 						break
 					}
 				}
+			}
+			if r.Chance(40) {
+				c.ops = c07RandomOps(r, n)
+				c = c.normOps()
 			}
 			c07RunChain(rep, seen, c, "random")
 		}
